@@ -18,13 +18,14 @@ use eyre::WrapErr;
 
 use crate::{
     component::ExecResult,
-    components::{boundary, initialization, mutation, replacement, selection, utils},
+    components::{boundary, initialization, mutation, replacement, selection, utils, Scope},
     conditions::Condition,
     configuration::Configuration,
     heuristics::ls,
     identifier::{Global, Identifier},
     logging::Logger,
     problems::{LimitedVectorProblem, SingleObjectiveProblem, VectorProblem},
+    state::common::Evaluations,
     Component,
 };
 
@@ -143,7 +144,16 @@ where
                 .do_(perturbation)
                 .evaluate_with::<I>()
                 .do_(selection::All::new())
-                .scope_(|builder| builder.do_(ls))
+                .do_(Scope::new_with(
+                    |_| Ok(()),
+                    vec![ls],
+                    |state, inner| {
+                        // The local search counts its evaluations in the scope's own counter.
+                        let evaluations = inner.get_value::<Evaluations>();
+                        *state.borrow_value_mut::<Evaluations>() += evaluations;
+                        Ok(())
+                    },
+                ))
                 .update_best_individual()
                 .do_(replacement::MuPlusLambda::new(1))
                 .do_(Logger::new())
